@@ -35,6 +35,8 @@ static long count[S_N];
 static long fail_at[S_N];   /* 0 = never, k = k-th call fails (1-based) */
 static long fail_from[S_N]; /* 0 = never, k = the k-th call and every later one fail */
 static long injected[S_N];
+static unsigned long rand_state = 0; /* != 0: every wrapped call is refused with probability rand_permille/1000 */
+static long rand_permille = 0;
 static long read_max = 0;   /* > 0: every read() delivers at most this many bytes */
 static int read_errno = EIO;
 static int force_move = 0;
@@ -67,7 +69,12 @@ static int hit(int s) {
   if (!wrap_in_api)
     return 0;
   count[s]++;
-  if ((fail_at[s] && count[s] == fail_at[s]) ||
+  int rnd_hit = 0;
+  if (rand_state) {
+    rand_state = rand_state * 6364136223846793005UL + 1442695040888963407UL;
+    rnd_hit = (long)((rand_state >> 33) % 1000) < rand_permille;
+  }
+  if (rnd_hit || (fail_at[s] && count[s] == fail_at[s]) ||
       (fail_from[s] && count[s] >= fail_from[s])) {
     injected[s]++;
     return 1;
@@ -322,6 +329,7 @@ void wrap_cmd(const char *sub, const char *a, const char *b) {
     memset(fail_from, 0, sizeof fail_from);
     read_max = 0;
     read_errno = EIO;
+    rand_state = 0;
     memset(injected, 0, sizeof injected);
     moves = growths = guarded_maps = 0;
     fstat_shrink = 0;
@@ -333,6 +341,9 @@ void wrap_cmd(const char *sub, const char *a, const char *b) {
     for (int s = 0; s < S_N; s++)
       if (!strcmp(a, SYM[s]))
         fail_from[s] = count[s] + atol(b); /* k-th call from now and all later ones */
+  } else if (!strcmp(sub, "failrand")) {
+    rand_state = (unsigned long)atol(a) * 2 + 1; /* seed */
+    rand_permille = atol(b);
   } else if (!strcmp(sub, "readmax")) {
     read_max = atol(a);
   } else if (!strcmp(sub, "readerrno")) {
